@@ -136,6 +136,9 @@ func (m *Machine) end(kind, msg string) {
 
 func (m *Machine) unsupported(msg string) { m.end("unsupported", msg) }
 
+// End terminates the current path with the given outcome (exported for companion interpreters).
+func (m *Machine) End(kind, msg string) { m.end(kind, msg) }
+
 func (m *Machine) goPanicStr(msg string) {
 	if n := len(m.callStack); n > 0 {
 		msg += " [in " + m.callStack[n-1].String() + "]"
